@@ -2,6 +2,7 @@ package sx
 
 import (
 	"fmt"
+	"os"
 	"math/big"
 	"sort"
 	"strings"
@@ -144,27 +145,168 @@ func (ex *Exec) groupIval(g *GroupFacet) *smt.Term {
 	return t
 }
 
-func facetEq(a, b *GroupFacet) *smt.Term {
+func (ex *Exec) facetEq(a, b *GroupFacet) *smt.Term {
 	r := smt.True
 	for k, e := range a.Exps {
 		o, ok := b.Exps[k]
 		if !ok {
 			o = realZero
 		}
-		r = smt.And(r, smt.Eq(e, o))
+		r = smt.And(r, ex.termEq(e, o))
 	}
 	for k, o := range b.Exps {
 		if _, ok := a.Exps[k]; !ok {
-			r = smt.And(r, smt.Eq(realZero, o))
+			r = smt.And(r, ex.termEq(realZero, o))
 		}
 	}
 	return r
 }
 
+// termEq is equality of two numeric terms, using random-oracle genericity
+// where it applies.
+func (ex *Exec) termEq(x, y *smt.Term) *smt.Term {
+	if x == y {
+		return smt.True
+	}
+	if ex.Ob.Param("no_oracle_rule", 0) == 0 {
+		if r := ex.genericZero(smt.Sub(x, y), 0); r != nil {
+			return r
+		}
+	}
+	return smt.Eq(x, y)
+}
+
+func isHashVar(t *smt.Term) bool {
+	return t.Op == smt.OVar && strings.HasPrefix(t.Name, "hash!")
+}
+
+func (ex *Exec) youngestVar(t *smt.Term, best **smt.Term, seen map[int]bool) {
+	if seen[t.ID] {
+		return
+	}
+	seen[t.ID] = true
+	if t.Op == smt.OVar {
+		if *best == nil || ex.birth[t.Name] > ex.birth[(*best).Name] {
+			*best = t
+		}
+	}
+	for _, a := range t.Args {
+		ex.youngestVar(a, best, seen)
+	}
+}
+
+func zeroTest(g *smt.Term) *smt.Term {
+	if g.Sort == smt.Real {
+		return smt.Eq(g, realZero)
+	}
+	return smt.Eq(g, smt.I64(0))
+}
+
+// genericZero decides d == 0 under the random-oracle genericity assumption:
+// if the youngest variable of d is a hash output h (so every other variable
+// was fixed before h was computed) and d is a polynomial in h, then d == 0
+// holds only if every coefficient of h^k is zero - or h coincides, by equal
+// inputs, with an earlier output of the same function. Returns nil if the
+// rule does not apply.
+func (ex *Exec) genericZero(d *smt.Term, depth int) *smt.Term {
+	if depth > 6 {
+		return nil
+	}
+	var h *smt.Term
+	ex.youngestVar(d, &h, map[int]bool{})
+	if h == nil || !isHashVar(h) || ex.birth[h.Name] == 0 {
+		if os.Getenv("GSX_TRACE") != "" && depth == 0 {
+			n := "<none>"
+			if h != nil {
+				n = h.Name
+			}
+			fmt.Fprintf(os.Stderr, "genericZero n/a: youngest=%s d=%s\n", n, d)
+		}
+		return nil
+	}
+	d = smt.Expand(d)
+	if d.IsConst() {
+		return smt.BoolC(d.Rat.Sign() == 0)
+	}
+	coefs, facs := smt.Monomials(d)
+	groups := map[int]*smt.Term{}
+	isH := func(f *smt.Term) bool { return f == h || (f.Op == smt.OToReal && f.Args[0] == h) }
+	for i, fs := range facs {
+		pow := 0
+		var rest []*smt.Term
+		for _, f := range fs {
+			if isH(f) {
+				pow++
+				continue
+			}
+			if _, has := smt.VarsOf(f)[h.ID]; has {
+				return nil // h occurs non-polynomially
+			}
+			rest = append(rest, f)
+		}
+		m := smt.FromMonomial(d.Sort, coefs[i], rest)
+		if g, ok := groups[pow]; ok {
+			groups[pow] = smt.Add(g, m)
+		} else {
+			groups[pow] = m
+		}
+	}
+	if len(groups) == 1 {
+		if _, only0 := groups[0]; only0 {
+			return nil
+		}
+	}
+	ex.stubs["random oracle genericity: a polynomial relation in a hash output whose other variables were fixed before the hash was computed holds only if all its coefficients vanish (or the output coincides, by equal inputs, with an earlier output)"] = true
+	alt := smt.False
+	var app *HashApp
+	for _, a := range ex.hashes {
+		if a.Out == h {
+			app = a
+		}
+	}
+	if app != nil {
+		for _, o := range ex.hashes {
+			if o == app || o.Kind != app.Kind || len(o.Args) != len(app.Args) || ex.birth[o.Out.Name] >= ex.birth[h.Name] {
+				continue
+			}
+			same := ex.hashArgsEq(app, o)
+			if same.IsFalse() {
+				continue
+			}
+			sub := smt.Subst(d, h, o.Out)
+			var z *smt.Term
+			if sub.IsConst() {
+				z = smt.BoolC(sub.Rat.Sign() == 0)
+			} else if g := ex.genericZero(sub, depth+1); g != nil {
+				z = g
+			} else {
+				z = zeroTest(sub)
+			}
+			alt = smt.Or(alt, smt.And(same, z))
+		}
+	}
+	r := smt.True
+	for _, g := range groups {
+		if g.IsConst() {
+			if g.Rat.Sign() != 0 {
+				r = smt.False
+				break
+			}
+			continue
+		}
+		if sub := ex.genericZero(g, depth+1); sub != nil {
+			r = smt.And(r, sub)
+		} else {
+			r = smt.And(r, zeroTest(g))
+		}
+	}
+	return smt.Or(r, alt)
+}
+
 // bigEq is the equality of two big integers, aware of group meanings.
 func (ex *Exec) bigEq(a, b BigVal) *smt.Term {
 	if a.G != nil && b.G != nil && a.G.Mod == b.G.Mod && a.G.Reduced && b.G.Reduced {
-		eq := facetEq(a.G, b.G)
+		eq := ex.facetEq(a.G, b.G)
 		// keep the opaque integer images consistent
 		if !eq.IsConst() || a.I != b.I {
 			ex.assume(smt.Eq(eq, smt.Eq(a.I, b.I)))
@@ -186,7 +328,7 @@ func (ex *Exec) bigEq(a, b BigVal) *smt.Term {
 			return ex.bigEq(b, a)
 		}
 	}
-	return smt.Eq(a.I, b.I)
+	return ex.termEq(a.I, b.I)
 }
 
 // ---------- hashes ----------
@@ -224,13 +366,30 @@ func (ex *Exec) hashApply(kind string, args []BigVal, bits uint) *smt.Term {
 	return out
 }
 
-// hashAxioms: collision resistance + functionality over the applications on this path.
+func (ex *Exec) hashArgsEq(a, b *HashApp) *smt.Term {
+	if a.Kind != b.Kind || len(a.Args) != len(b.Args) {
+		return smt.False
+	}
+	eq := smt.True
+	for k := range a.Args {
+		eq = smt.And(eq, ex.bigEq(a.Args[k], b.Args[k]))
+		if eq.IsFalse() {
+			break
+		}
+	}
+	return eq
+}
+
+// hashAxioms: collision resistance, functionality and unpredictability over
+// the hash applications on this path.
 func (ex *Exec) hashAxioms() []*smt.Term {
-	if ex.hashAx != nil || len(ex.hashes) < 2 {
+	if len(ex.hashes) == 0 {
+		return nil
+	}
+	if ex.hashAx != nil && ex.hashAxPc == len(ex.pc) {
 		return ex.hashAx
 	}
 	var out []*smt.Term
-	saved := ex.pc
 	for i := 0; i < len(ex.hashes); i++ {
 		for j := i + 1; j < len(ex.hashes); j++ {
 			a, b := ex.hashes[i], ex.hashes[j]
@@ -238,18 +397,45 @@ func (ex *Exec) hashAxioms() []*smt.Term {
 				out = append(out, smt.Ne(a.Out, b.Out))
 				continue
 			}
-			eq := smt.True
-			for k := range a.Args {
-				eq = smt.And(eq, ex.bigEq(a.Args[k], b.Args[k]))
-			}
-			out = append(out, smt.Eq(eq, smt.Eq(a.Out, b.Out)))
+			out = append(out, smt.Eq(ex.hashArgsEq(a, b), smt.Eq(a.Out, b.Out)))
 		}
 	}
-	// bigEq may have appended consistency axioms to the pc; keep them
-	_ = saved
+	// random oracle: an output never equals a variable that was fixed before it was computed
+	if ex.Ob.Param("no_oracle_rule", 0) == 0 {
+		seen := map[int]bool{}
+		var vars []*smt.Term
+		var walk func(t *smt.Term)
+		walk = func(t *smt.Term) {
+			if seen[t.ID] {
+				return
+			}
+			seen[t.ID] = true
+			if t.Op == smt.OVar && t.Sort == smt.Int && !isHashVar(t) &&
+				!strings.HasPrefix(t.Name, "grp!") && !strings.HasPrefix(t.Name, "prod!") {
+				if t.Hi == nil || t.Hi.BitLen() > 64 {
+					vars = append(vars, t)
+				}
+			}
+			for _, a := range t.Args {
+				walk(a)
+			}
+		}
+		for _, c := range ex.pc {
+			walk(c)
+		}
+		for _, h := range ex.hashes {
+			hb := ex.birth[h.Out.Name]
+			for _, v := range vars {
+				if b := ex.birth[v.Name]; b > 0 && b < hb {
+					out = append(out, smt.Ne(h.Out, v))
+				}
+			}
+		}
+	}
 	ex.hashAx = out
 	if out == nil {
 		ex.hashAx = []*smt.Term{}
 	}
+	ex.hashAxPc = len(ex.pc)
 	return ex.hashAx
 }
